@@ -24,12 +24,12 @@ import (
 )
 
 type expectation struct {
-	goName string
-	val    constant.Value // expected exact value (nil: see special)
-	typ    string         // expected Go type name ("" = untyped constant expected)
-	under  string         // expected underlying basic type of typ
-	special string        // "inf", "-inf", "nan": package variable initialised with math.Inf(1) / math.Inf(-1) / math.NaN()
-	what   string
+	goName  string
+	val     constant.Value // expected exact value (nil: see special)
+	typ     string         // expected Go type name ("" = untyped constant expected)
+	under   string         // expected underlying basic type of typ
+	special string         // "inf", "-inf", "nan": package variable initialised with math.Inf(1) / math.Inf(-1) / math.NaN()
+	what    string
 }
 
 var chk *tc.Checker
